@@ -27,6 +27,7 @@ static bool BYTELOOPS = false; // opt-in (IO byte-level jobs): i8 memcpy/memmove
 static std::map<Type*, std::string> tname;
 static std::vector<StructType*> structOrder;
 static std::vector<ArrayType*> arrOrder;
+static std::vector<FixedVectorType*> vecOrder;
 static std::vector<FunctionType*> fnOrder;
 static std::map<FunctionType*, std::string> fnTypeName;
 static std::string typedefs_fn;
@@ -88,6 +89,15 @@ static std::string ctype(Type *T) {
     r = "void";
   } else if (T->isMetadataTy() || T->isLabelTy() || T->isTokenTy()) {
     r = "int";
+  } else if (auto *V = dyn_cast<FixedVectorType>(T)) {
+    // ABI-coerced small aggregates (e.g. VectorT<float,4> passed as two <2 x float>): a struct with the same bytes; only
+    // whole-value load/store/call-argument uses are supported (any vector arithmetic is reported as unsupported instruction)
+    std::string e = ctype(V->getElementType());
+    (void)e;
+    r = "struct VV" + std::to_string(vecOrder.size());
+    tname[T] = r;
+    vecOrder.push_back(V);
+    return r;
   } else if (T->isVectorTy()) {
     errs() << "vector type unsupported\n";
     r = "u128";
@@ -115,6 +125,25 @@ static std::string fnTypedef(FunctionType *FT) {
   return n;
 }
 
+// Typed storage override (C13/C14): libstdc++'s __gnu_cxx::__aligned_buffer<T> (the object slot of make_shared's control block) is
+// { [sizeof(T) x i8] } in the IR; as a C byte array CBMC cannot constant-fold the pointers/vptr stored in it (arrays > 64 elements are not
+// field-sensitive).  When the module's bitcasts identify a unique struct T of exactly that size, the C struct is emitted as { T f0; } and
+// every path through it (GEP / constant-offset typed paths / leaves) is resolved inside T by byte offset.  Same layout, same bytes.
+static std::map<StructType*, Type*> ovT;
+static Type *ovElem(Type *S) { auto it = ovT.find(dyn_cast_or_null<StructType>(S)); return it == ovT.end() ? nullptr : it->second; }
+static bool typedPath(Type *T, uint64_t off, Type *want, std::string &path);
+static Type *g_foundTy;
+// continue designator e (an lvalue of overridden struct type S) by the remaining GEP indices idxV[i..] (idxV[i] indexes S itself)
+static bool ovGepTail(StructType *S, std::string &e, ArrayRef<Value*> idxV, unsigned i, Type *&cur) {
+  SmallVector<Value*, 8> ix; ix.push_back(ConstantInt::get(Type::getInt64Ty(S->getContext()), 0));
+  for (unsigned k = i; k < idxV.size(); ++k) { if (!isa<ConstantInt>(idxV[k])) { errs() << "unsupported gep: symbolic index through typed-storage override\n"; return false; } ix.push_back(idxV[k]); }
+  int64_t off = DL->getIndexedOffsetInType(S, ix);
+  std::string p;
+  if (off >= 0 && typedPath(ovElem(S), (uint64_t)off, nullptr, p)) { e += ".f0" + p; cur = g_foundTy; return true; }
+  e = "(*((u8*)&" + e + " + " + std::to_string(off) + "))"; cur = Type::getInt8Ty(S->getContext());
+  return true;
+}
+
 // emit struct/array definitions in dependency order
 static std::set<Type*> emitted, visiting;
 static void emitTypeDef(Type *T, raw_ostream &O) {
@@ -122,6 +151,11 @@ static void emitTypeDef(Type *T, raw_ostream &O) {
     if (emitted.count(S)) return;
     if (S->isOpaque()) { emitted.insert(S); return; }
     if (visiting.count(S)) return;
+    if (Type *OT = ovElem(S)) {
+      visiting.insert(S); emitTypeDef(OT, O); visiting.erase(S); emitted.insert(S);
+      O << structName(S) << " { " << ctype(OT) << " f0; };\n";
+      return;
+    }
     visiting.insert(S);
     for (Type *E : S->elements()) emitTypeDef(E, O);
     visiting.erase(S);
@@ -179,6 +213,7 @@ static std::string gepExpr(Type *srcElemTy, const std::string &base, ArrayRef<st
   if (zero0) e = "(*" + base + ")";
   else e = "(" + base + ")[(s64)" + idx[0] + "]";
   for (unsigned i = 1; i < idx.size(); ++i) {
+    if (ovElem(cur)) { ovGepTail(cast<StructType>(cur), e, idxV, i, cur); break; }
     if (auto *S = dyn_cast<StructType>(cur)) {
       auto *CI = cast<ConstantInt>(idxV[i]);
       unsigned k = CI->getZExtValue();
@@ -187,6 +222,9 @@ static std::string gepExpr(Type *srcElemTy, const std::string &base, ArrayRef<st
     } else if (auto *A = dyn_cast<ArrayType>(cur)) {
       e += ".e[(s64)" + idx[i] + "]";
       cur = A->getElementType();
+    } else if (auto *VT = dyn_cast<FixedVectorType>(cur)) {   // element of an ABI-coerced <N x T> temporary (struct VV { T e[N]; })
+      e += ".e[(s64)" + idx[i] + "]";
+      cur = VT->getElementType();
     } else {
       errs() << "bad gep\n";
     }
@@ -205,8 +243,10 @@ static std::string gepLvalue(Type *srcElemTy, const std::string &base, ArrayRef<
   if (auto *CI = dyn_cast<ConstantInt>(idxV[0])) zero0 = CI->isZero();
   if (zero0) e = "(*" + base + ")"; else e = "(" + base + ")[(s64)" + idx[0] + "]";
   for (unsigned i = 1; i < idx.size(); ++i) {
+    if (ovElem(cur)) { ovGepTail(cast<StructType>(cur), e, idxV, i, cur); break; }
     if (auto *S = dyn_cast<StructType>(cur)) { unsigned k = cast<ConstantInt>(idxV[i])->getZExtValue(); e += ".f" + std::to_string(k); cur = S->getElementType(k); }
     else if (auto *A = dyn_cast<ArrayType>(cur)) { e += ".e[(s64)" + idx[i] + "]"; cur = A->getElementType(); }
+    else if (auto *VT = dyn_cast<FixedVectorType>(cur)) { e += ".e[(s64)" + idx[i] + "]"; cur = VT->getElementType(); }
   }
   return e;
 }
@@ -260,7 +300,7 @@ static std::string constExpr(Constant *C, bool inInit) {
   if (auto *CF = dyn_cast<ConstantFP>(C)) return fpLit(CF->getValueAPF(), T);
   if (isa<ConstantPointerNull>(C)) return "((" + ctype(T) + ")0)";
   if (isa<UndefValue>(C)) {
-    if (T->isStructTy() || T->isArrayTy()) return "((" + ctype(T) + "){0})";
+    if (T->isStructTy() || T->isArrayTy() || T->isVectorTy()) return "((" + ctype(T) + "){0})";
     if (T->isPointerTy()) return "((" + ctype(T) + ")0)";
     if (T->isFloatingPointTy()) return "0.0";
     return "((" + ctype(T) + ")0)";
@@ -343,13 +383,13 @@ static std::string constAggInit(Constant *C) {
 
 
 
-static Type *g_foundTy = nullptr;
-static bool typedPath(Type *T, uint64_t off, Type *want, std::string &path) {
+static bool typedPath(Type *T, uint64_t off, Type *want, std::string &path) {   // g_foundTy: declared above (typed storage override)
   if (off == 0 && T == want) { g_foundTy = T; return true; }
   if (off == 0 && want && want->isPointerTy() && T->isPointerTy()) { g_foundTy = T; return true; }
   if (off == 0 && !want && !T->isStructTy() && !T->isArrayTy()) { g_foundTy = T; return true; }
   if (auto *S = dyn_cast<StructType>(T)) {
     if (S->isOpaque() || S->getNumElements() == 0) return false;
+    if (Type *OT = ovElem(S)) { std::string p = path + ".f0"; if (typedPath(OT, off, want, p)) { path = p; return true; } return false; }
     const StructLayout *SL = DL->getStructLayout(S);
     if (off >= SL->getSizeInBytes()) return false;
     unsigned idx = SL->getElementContainingOffset(off);
@@ -382,6 +422,7 @@ struct Leaf { std::string lv; uint64_t off; uint64_t sz; Type *T; };
 static void collectLeaves(Type *T, const std::string &lv, uint64_t off, std::vector<Leaf> &out) {
   if (auto *S = dyn_cast<StructType>(T)) {
     if (S->isOpaque()) return;
+    if (Type *OT = ovElem(S)) { collectLeaves(OT, lv + ".f0", off, out); return; }
     const StructLayout *SL = DL->getStructLayout(S);
     for (unsigned i = 0; i < S->getNumElements(); ++i)
       collectLeaves(S->getElementType(i), lv + ".f" + std::to_string(i), off + SL->getElementOffset(i), out);
@@ -398,6 +439,17 @@ template <class VALF>
 static bool rangeLeaves(Value *V, uint64_t N, VALF valf, std::vector<Leaf> &out) {
   APInt off(64, 0);
   Value *base = V->stripAndAccumulateConstantOffsets(*DL, off, true);
+  if (auto *PT0 = dyn_cast<PointerType>(base->getType())) if (!PT0->getPointerElementType()->isStructTy() && !PT0->getPointerElementType()->isArrayTy()) {
+    // stripped down to an untyped pointer (the i8* returned by operator new): use the deepest aggregate-typed pointer on the chain instead
+    APInt o2(64, 0); Value *cur = V, *best = nullptr; APInt bestOff(64, 0);
+    for (;;) {
+      if (auto *P = dyn_cast<PointerType>(cur->getType())) { Type *e = P->getPointerElementType(); if ((e->isStructTy() || e->isArrayTy()) && e->isSized()) { best = cur; bestOff = o2; } }
+      if (auto *G = dyn_cast<GEPOperator>(cur)) { APInt g(64, 0); if (!G->accumulateConstantOffset(*DL, g)) break; o2 += g; cur = G->getPointerOperand(); }
+      else if (auto *B = dyn_cast<BitCastOperator>(cur)) cur = B->getOperand(0);
+      else break;
+    }
+    if (best) { base = best; off = bestOff; }
+  }
   if (off.isNegative()) return false;
   uint64_t o = off.getZExtValue();
   auto *PT = dyn_cast<PointerType>(base->getType());
@@ -427,7 +479,7 @@ struct FnEmitter {
 
   std::string val(Value *V) {
     if (auto *C = dyn_cast<Constant>(V)) {
-      if (isa<UndefValue>(C) && !C->getType()->isAggregateType()) {
+      if (isa<UndefValue>(C) && !C->getType()->isAggregateType() && !C->getType()->isVectorTy()) {
         // nondet
         Type *T = C->getType();
         if (T->isPointerTy()) return "((" + ctype(T) + ")0)";
@@ -591,6 +643,14 @@ struct FnEmitter {
             Type *ST = sv->getType()->getPointerElementType();
             std::string sfx;
             if (auto *AT = dyn_cast<ArrayType>(ST)) if (AT->getElementType() == DT) { ST = DT; sfx = "->e"; }
+            if (ST == DT && DT->isStructTy() && sfx.empty() && cast<StructType>(DT)->hasName() && cast<StructType>(DT)->getName().startswith("union.")) {
+              // struct-typed pointers whose byte count need not be a multiple of the struct size (std::string's SSO union copied with length+1 bytes):
+              // typed loop when it is a multiple, byte loop otherwise (C13/C14)
+              O << ind << "{ " << ctype(DT) << "* _d = " << val(d) << "; " << ctype(DT) << "* _s = " << val(sv) << "; u64 _len = (u64)" << len << "; u64 _n = _len / " << es << ";\n";
+              O << ind << "  if (_len % " << es << " == 0) { if (_n) { if (__CPROVER_same_object(_d, _s) && __CPROVER_POINTER_OFFSET(_d) > __CPROVER_POINTER_OFFSET(_s)) { for (u64 _i = _n; _i > 0; --_i) _d[_i-1] = _s[_i-1]; } else { for (u64 _i = 0; _i < _n; ++_i) _d[_i] = _s[_i]; } } }\n";
+              O << ind << "  else { u8* _bd = (u8*)_d; u8* _bs = (u8*)_s; if (__CPROVER_same_object(_bd, _bs) && __CPROVER_POINTER_OFFSET(_bd) > __CPROVER_POINTER_OFFSET(_bs)) { for (u64 _i = _len; _i > 0; --_i) _bd[_i-1] = _bs[_i-1]; } else { for (u64 _i = 0; _i < _len; ++_i) _bd[_i] = _bs[_i]; } } }\n";
+              return true;
+            }
             if (ST == DT) {
               O << ind << "{ " << ctype(DT) << "* _d = " << val(d) << "; " << ctype(DT) << "* _s = " << (sfx.empty() ? val(sv) : "&(*" + val(sv) + ").e[0]") << "; u64 _n = (u64)" << len << " / " << es << "; __CPROVER_assert((u64)" << len << " % " << es << " == 0, \"typed memcpy size\");\n";
               O << ind << "  if (_n) { if (__CPROVER_same_object(_d, _s) && __CPROVER_POINTER_OFFSET(_d) > __CPROVER_POINTER_OFFSET(_s)) { for (u64 _i = _n; _i > 0; --_i) _d[_i-1] = _s[_i-1]; } else { for (u64 _i = 0; _i < _n; ++_i) _d[_i] = _s[_i]; } } }\n";
@@ -618,6 +678,8 @@ struct FnEmitter {
     case Intrinsic::umin: O << ind << lhs << "(" << val(CB.getArgOperand(0)) << " < " << val(CB.getArgOperand(1)) << " ? " << val(CB.getArgOperand(0)) << " : " << val(CB.getArgOperand(1)) << ");\n"; return true;
     case Intrinsic::smax: O << ind << lhs << "(" << sval(CB.getArgOperand(0)) << " > " << sval(CB.getArgOperand(1)) << " ? " << val(CB.getArgOperand(0)) << " : " << val(CB.getArgOperand(1)) << ");\n"; return true;
     case Intrinsic::smin: O << ind << lhs << "(" << sval(CB.getArgOperand(0)) << " < " << sval(CB.getArgOperand(1)) << " ? " << val(CB.getArgOperand(0)) << " : " << val(CB.getArgOperand(1)) << ");\n"; return true;
+    case Intrinsic::usub_sat: O << ind << lhs << "(" << val(CB.getArgOperand(0)) << " > " << val(CB.getArgOperand(1)) << " ? " << maskTo(val(CB.getArgOperand(0)) + " - " + val(CB.getArgOperand(1)), CB.getType()) << " : (" << ctype(CB.getType()) << ")0);\n"; return true;
+    case Intrinsic::uadd_sat: O << ind << lhs << "(" << maskTo(val(CB.getArgOperand(0)) + " + " + val(CB.getArgOperand(1)), CB.getType()) << " < " << val(CB.getArgOperand(0)) << " ? (" << ctype(CB.getType()) << ")~(" << ctype(CB.getType()) << ")0 : " << maskTo(val(CB.getArgOperand(0)) + " + " + val(CB.getArgOperand(1)), CB.getType()) << ");\n"; return true;
     case Intrinsic::abs: O << ind << lhs << maskTo("(" + sval(CB.getArgOperand(0)) + " < 0 ? -" + sval(CB.getArgOperand(0)) + " : " + sval(CB.getArgOperand(0)) + ")", CB.getType()) << ";\n"; return true;
     case Intrinsic::ctlz: O << ind << lhs << "v_ctlz" << CB.getType()->getIntegerBitWidth() << "(" << val(CB.getArgOperand(0)) << ");\n"; return true;
     case Intrinsic::cttz: O << ind << lhs << "v_cttz" << CB.getType()->getIntegerBitWidth() << "(" << val(CB.getArgOperand(0)) << ");\n"; return true;
@@ -646,6 +708,18 @@ struct FnEmitter {
     return true;
   }
 
+  // operator new -> typed dynamic object (element type from the bitcast users); shared by call and invoke sites
+  bool typedNew(CallBase &CI, const std::string &ind, const std::string &lhs) {
+    Type *ET = nullptr;
+    for (User *U : CI.users()) if (auto *BC = dyn_cast<BitCastInst>(U)) { Type *t = BC->getType()->getPointerElementType(); if (t->isSized() && !t->isFunctionTy() && DL->getTypeAllocSize(t) > 0) { ET = t; break; } }
+    // constant-size `new T`: prefer the bitcast to a struct of exactly that size (use-list order is arbitrary; `new TopologyKernel` was typed as an array of vptr slots)
+    if (auto *NC = dyn_cast<ConstantInt>(CI.getArgOperand(0))) for (User *U : CI.users()) if (auto *BC = dyn_cast<BitCastInst>(U)) { Type *t = BC->getType()->getPointerElementType(); if (t->isStructTy() && t->isSized() && DL->getTypeAllocSize(t) == NC->getZExtValue()) { ET = t; break; } }
+    if (!ET) return false;
+    std::string n = val(CI.getArgOperand(0)); std::string st = "sizeof(" + ctype(ET) + ")";
+    const char *z = ET->isIntegerTy(64) ? "1" : "0"; // vector<bool> words: zero-initialised model (bit-level folding)
+    O << ind << lhs << "(u8*)((" << n << " % " << st << " == 0) ? __CPROVER_allocate(" << st << " * (" << n << " / " << st << "), " << z << ") : __CPROVER_allocate(" << n << ", 0));\n";
+    return true;
+  }
   bool special(CallBase &CI, const std::string &ind) {
     Function *CF = CI.getCalledFunction();
     if (!CF) return false;
@@ -711,9 +785,9 @@ struct FnEmitter {
   void binop(BinaryOperator &I, const std::string &ind) {
     Type *T = I.getType();
     std::string a = val(I.getOperand(0)), b = val(I.getOperand(1));
-    std::string sa = sext(a, T), sb = sext(b, T);
-    std::string e;
     bool fp = T->isFloatingPointTy();
+    std::string sa = fp ? a : sext(a, T), sb = fp ? b : sext(b, T);
+    std::string e;
     if (I.getOpcode() == Instruction::Sub) {
       auto *pa = dyn_cast<PtrToIntOperator>(I.getOperand(0)); auto *pb = dyn_cast<PtrToIntOperator>(I.getOperand(1));
       if (pa && pb && T->getIntegerBitWidth() == 64) {
@@ -916,14 +990,7 @@ struct FnEmitter {
       if (Function *CF = CI->getCalledFunction()) {
         StringRef fnm = CF->getName();
         if ((fnm == "_Znwm" || fnm == "_Znam") && !CI->getType()->isVoidTy()) {
-          Type *ET = nullptr;
-          for (User *U : CI->users()) if (auto *BC = dyn_cast<BitCastInst>(U)) { Type *t = BC->getType()->getPointerElementType(); if (t->isSized() && !t->isFunctionTy() && DL->getTypeAllocSize(t) > 0) { ET = t; break; } }
-          if (ET) {
-            std::string n = val(CI->getArgOperand(0)); std::string st = "sizeof(" + ctype(ET) + ")";
-            const char *z = ET->isIntegerTy(64) ? "1" : "0"; // vector<bool> words: zero-initialised model (bit-level folding)
-            O << ind << lhs << "(u8*)((" << n << " % " << st << " == 0) ? __CPROVER_allocate(" << st << " * (" << n << " / " << st << "), " << z << ") : __CPROVER_allocate(" << n << ", 0));\n";
-            return;
-          }
+          if (typedNew(*CI, ind, lhs)) return;
         }
       }
       if (special(*CI, ind)) return;
@@ -934,7 +1001,9 @@ struct FnEmitter {
       return;
     }
     if (auto *II = dyn_cast<InvokeInst>(&I)) {
-      if (!intrinsic(*II, ind) && !special(*II, ind)) O << ind << lhs << callExpr(*II) << ";\n";
+      bool tn = false;   // `invoke operator new` (inside functions with cleanups): same typed allocation as the call form
+      if (Function *CF = II->getCalledFunction()) if ((CF->getName() == "_Znwm" || CF->getName() == "_Znam") && !II->getType()->isVoidTy()) tn = typedNew(*II, ind, lhs);
+      if (!tn && !intrinsic(*II, ind) && !special(*II, ind)) O << ind << lhs << callExpr(*II) << ";\n";
       if (EH) { O << ind << "if (v_exc) {\n"; jump(I.getParent(), II->getUnwindDest(), "    "); O << ind << "}\n"; }
       jump(I.getParent(), II->getNormalDest(), ind); return;
     }
@@ -997,6 +1066,36 @@ int main(int argc, char **argv) {
   auto M = parseIRFile(in, E, C);
   if (!M) { E.print("ll2c", errs()); return 1; }
   DL = &M->getDataLayout();
+  { // typed storage override inference: unique struct T with bitcast __aligned_buffer* -> T* and sizeof(T) == sizeof(buffer)
+    std::map<StructType*, std::set<Type*>> cand;
+    auto consider = [&](Type *from, Type *to) {
+      auto *PF = dyn_cast<PointerType>(from); auto *PT = dyn_cast<PointerType>(to); if (!PF || !PT) return;
+      auto *S = dyn_cast<StructType>(PF->getPointerElementType());
+      if (!S || !S->hasName() || !S->getName().startswith("struct.__gnu_cxx::__aligned_buffer") || S->isOpaque()) return;
+      auto *T = dyn_cast<StructType>(PT->getPointerElementType());
+      if (!T || T->isOpaque() || !T->isSized() || T == S) return;
+      if (DL->getTypeAllocSize(T) != DL->getTypeAllocSize(S)) return;
+      cand[S].insert(T);
+    };
+    for (Function &F : *M) for (BasicBlock &BB : F) for (Instruction &I : BB) {
+      if (auto *BC = dyn_cast<BitCastInst>(&I)) consider(BC->getSrcTy(), BC->getDestTy());
+      for (Value *Op : I.operands()) if (auto *CE = dyn_cast<ConstantExpr>(Op)) if (CE->getOpcode() == Instruction::BitCast) consider(CE->getOperand(0)->getType(), CE->getType());
+    }
+    // std::string's SSO union { char _M_local_buf[16]; size_t _M_allocated_capacity; } is { i64, [8 x i8] } in the IR; the characters are
+    // accessed through i8*.  As bytes ([16 x i8]) CBMC folds short-string contents/comparisons; the capacity word (heap strings only) is
+    // then the one access going through a pointer cast.
+    for (StructType *S : M->getIdentifiedStructTypes()) {
+      if (!S->hasName() || !S->getName().startswith("class.std::__cxx11::basic_string") || S->isOpaque() || S->getNumElements() != 3) continue;
+      auto *U = dyn_cast<StructType>(S->getElementType(2));
+      if (U && U->hasName() && U->getName().startswith("union.") && !U->isOpaque() && DL->getTypeAllocSize(U) == 16 && !ovT.count(U)) {
+        ovT[U] = ArrayType::get(Type::getInt8Ty(C), 16); errs() << "NOTE typed storage: " << U->getName() << " (std::string SSO buffer) -> [16 x i8]\n";
+      }
+    }
+    for (auto &c : cand) {
+      if (c.second.size() == 1) { ovT[c.first] = *c.second.begin(); errs() << "NOTE typed storage: " << c.first->getName() << " -> " << cast<StructType>(*c.second.begin())->getName() << "\n"; }
+      else errs() << "NOTE typed storage: " << c.first->getName() << " has " << c.second.size() << " candidate types; left as bytes\n";
+    }
+  }
   std::string body; raw_string_ostream B(body);
   std::string protos; raw_string_ostream P(protos);
   std::string globals; raw_string_ostream G(globals);
@@ -1006,6 +1105,14 @@ int main(int argc, char **argv) {
     Type *VT = GV.getValueType();
     std::string n = gname(&GV);
     if (GV.getName().startswith("llvm.")) continue;
+    // typeinfo objects of fundamental types (_ZTIi, _ZTIb, ...: defined in libstdc++.so): {vptr, name} with the mangled one-letter name,
+    // so that typeid(T).name() / type_info::operator== read constants (C13/C14 internal_type_name)
+    if (!GV.hasInitializer() && GV.getName().size() == 5 && GV.getName().startswith("_ZTI") && GV.getName()[4] >= 'a' && GV.getName()[4] <= 'z') {
+      P << "extern u8* " << n << "[2];\n";
+      G << "static u8 " << n << "_name[2] = {" << (int)GV.getName()[4] << ", 0};\n";
+      G << "u8* " << n << "[2] = {(u8*)0, " << n << "_name};\n";
+      continue;
+    }
     P << "extern " << ctype(VT) << " " << n << ";\n";
   }
   for (GlobalVariable &GV : M->globals()) {
@@ -1052,7 +1159,7 @@ int main(int argc, char **argv) {
   {
     std::vector<std::pair<uint64_t, Function*>> ctors;
     if (GlobalVariable *GC = M->getGlobalVariable("llvm.global_ctors")) if (GC->hasInitializer()) if (auto *CA = dyn_cast<ConstantArray>(GC->getInitializer()))
-      for (unsigned i = 0; i < CA->getNumOperands(); ++i) { auto *CS = cast<ConstantStruct>(CA->getOperand(i)); auto *fn = dyn_cast<Function>(CS->getOperand(1)->stripPointerCasts()); if (fn) ctors.push_back({cast<ConstantInt>(CS->getOperand(0))->getZExtValue(), fn}); }
+      for (unsigned i = 0; i < CA->getNumOperands(); ++i) { auto *CS = cast<ConstantStruct>(CA->getOperand(i)); auto *fn = dyn_cast<Function>(CS->getOperand(1)->stripPointerCasts()); if (fn && !fn->isDeclaration()) ctors.push_back({cast<ConstantInt>(CS->getOperand(0))->getZExtValue(), fn}); }
     std::stable_sort(ctors.begin(), ctors.end(), [](auto &a, auto &b) { return a.first < b.first; });
     B << "void v_run_static_init(void) {\n  static int done; if (done) return; done = 1;\n";
     for (auto &c : ctors) B << "  " << gname(c.second) << "();\n";
@@ -1100,6 +1207,7 @@ int main(int argc, char **argv) {
   std::string types; raw_string_ostream T(types);
   // forward declare all structs
   // (structOrder/arrOrder may grow while emitting)
+  for (size_t i = 0; i < vecOrder.size(); ++i) T << ctype(vecOrder[i]) << " { " << ctype(vecOrder[i]->getElementType()) << " e[" << vecOrder[i]->getNumElements() << "]; };\n";
   for (size_t i = 0; i < structOrder.size(); ++i) T << structName(structOrder[i]) << ";\n";
   for (size_t i = 0; i < arrOrder.size(); ++i) T << ctype(arrOrder[i]) << ";\n";
   for (size_t i = 0; i < structOrder.size(); ++i) emitTypeDef(structOrder[i], T);
